@@ -1197,6 +1197,20 @@ func genC08(g *G, sc *Scenario, tier string) {
 		}
 		sc.Ops = append(sc.Ops, Op{K: "run", S: "job1", DS: runType, M: spec})
 		if len(spec) > 0 {
+			if g.P(0.4) {
+				// clients go on writing between the run that failed and the one that follows it
+				for w := g.Range(1, 2); w > 0; w-- {
+					ds := srcs[0]
+					if g.P(0.4) {
+						ds = g.Pick(srcs)
+					}
+					c.Pool = pools[ds]
+					ents := g.batch(c, m, ds)
+					m.Batch(ds, ents)
+					sc.Ops = append(sc.Ops, Op{K: "batch", DS: ds, Ents: ents})
+				}
+				c.Pool = full
+			}
 			// a clean run after the faulty one must restore equality, and a further one adds nothing
 			next := runType
 			if (g.P(0.4) || (spec["killPoint"] != nil && g.P(0.5))) && !viaTrigger {
